@@ -213,21 +213,22 @@ for _p, _t in _EXTRA.items():
 
 # Fifth round of seeded changes (DESIGN §8 round 5).
 _EXTRA5 = {
- "C01": " Fifth round: (R-CTX-1) the context handed to every call is the function's own or a cancellation-keeping derivation of it, and no csvq type implements context.Context — an interrupt reaches the commit; (R-DROP-1) no error result is dropped (expression statement, defer, go; `_ =` for output primitives); (R-PAR-15) fork-join is unconditional.",
+ "C01": " Fifth round: (R-CTX-1) the context handed to every call is the function's own or a cancellation-keeping derivation of it, and no csvq type implements context.Context — an interrupt reaches the commit; (R-DROP-1) no error result is dropped (expression statement, defer, go; `_ =` for output primitives); (R-PAR-15) fork-join is unconditional. (R-TXN-11) point of no return: in Commit no file-phase call and no failing exit is reachable after the restore points of temporary tables have advanced; Rollback restores them on every exit.",
  "C02": " Fifth round: (R-DROP-1) no error of a writer / flush / close is dropped on the output path (a deferred Flush loses the report that the last buffer could not be encoded).",
  "C03": " Fifth round: (R-PAR-14) the fold of the per-worker record lists equals the concatenation for every shape up to 4 lists × 2 records (abstract execution); (R-NODE-1) the query-level memos of ReferenceScope (resolved paths, frozen NOW) are born in CreateNode only, never with the statement-level scope; (R-VIEW-1) no evaluation sees a view between the replacement of its Header and of its RecordSet.",
  "C04": " Fifth round: R-SRT-5 now also tracks the column layout: a per-cell cache is stale once the Header is replaced (not merely extended), and carrying old entries over into a rebuilt cache does not cure it; (R-CONV-2) zone-less datetime texts are parsed in the session location.",
  "C05": " Fifth round: (R-VIEW-1) Header and RecordSet change back to back (ALTER TABLE ADD evaluates defaults before either); (R-UPD-1) the row index into a target view selected by key is not carried over from the iteration of another key (multi-table UPDATE).",
  "C06": " Fifth round: (R-CMP-9) the arithmetic evaluators return Integer / Float / Null only (unary plus converts its operand); (R-CONV-2) time.Parse only with zone-carrying constant layouts, everything else through ParseInLocation with the session location.",
- "C08": " Fifth round: (R-VIEW-1) registered (a failing default expression cannot observe a half-replaced view).",
- "C09": " Fifth round: (R-OWN-1) a loading function releases only handlers it created itself; handlers stored in cached views are released by the transaction end only.",
+ "C08": " Fifth round: (R-VIEW-1) registered (a failing default expression cannot observe a half-replaced view). (R-TXN-11) registered.",
+ "C09": " Fifth round: (R-OWN-1) a loading function releases only handlers it created itself; handlers stored in cached views are released by the transaction end only. (R-CLEAN-8) a handler leaves the container's map only on the success edge of its release; (R-PATH-1) table paths are canonical (filepath.Abs / Clean) before they become cache keys and lock paths.",
  "C10": " Fifth round: R-DROP-1 registered (errors of write / sync / rename primitives are never discarded).",
- "C11": " Fifth round: (R-CTX-1) cancellation is never detached; (R-OWN-1) reading a held table as an inline table does not remove its control files. Genuine defect repaired: SIGPIPE / SIGHUP ended csvq without clean-up (R-TXN-2's signal table now requires them).",
+ "C11": " Fifth round: (R-CTX-1) cancellation is never detached; (R-OWN-1) reading a held table as an inline table does not remove its control files. Genuine defect repaired: SIGPIPE / SIGHUP ended csvq without clean-up (R-TXN-2's signal table now requires them). (R-CLEAN-8) a handler whose close / commit failed stays registered, so the clean-up at the end of the transaction still finds its control files.",
  "C12": " Fifth round: (R-DET-2) package-level variables are written at run time only where listed as result-neutral (a 'last matched format' hint in an atomic.Value is race-free but history-dependent); (R-PAR-14) the worker-list fold keeps every record in list order; (R-PAR-15) fork-join is unconditional.",
  "C13": " Fifth round: (R-PAR-15) every go statement is followed, on every path to a return of the starting function, by a synchronous WaitGroup.Wait (directly or through a csvq function that waits on all its paths) — a join raced against ctx.Done() lets workers outlive the call.",
  "C14": " Fifth round: R-DET-2 registered (no hidden state survives from one evaluation to the next).",
+ "C17": " Fifth round: (R-IDENT-1) the printed text of an expression is never compared case-insensitively (two analytic functions that differ in the case of a literal are two columns) — genuine defect repaired.",
  "C19": " Fifth round: (R-DROP-1) no error is dropped. Three genuine defects reported by seeding agents and repaired: COUNT(*) over a table without columns (empty file), an aggregate nested in an analytic function over grouped records, `csvq calc` on an expression that makes the query a set operation.",
- "C20": " Fifth round: (R-OWN-1) the update handler of a cached table is never closed by a loader; (R-NODE-1) the resolved-path memo does not outlive the query.",
+ "C20": " Fifth round: (R-OWN-1) the update handler of a cached table is never closed by a loader; (R-NODE-1) the resolved-path memo does not outlive the query. (R-PATH-1) every success return of the path resolvers yields a cleaned absolute path, so two spellings of one file share one cache entry.",
 }
 for _p, _t in _EXTRA5.items():
     if _p in CLAIMS:
